@@ -55,3 +55,21 @@ Theorem C16_render_refines :
         wr_bytes w' = wr_bytes w ++ o /\ w_fail w' = None /\ post [] s c' e1.
 Proof. exact render_refines. Qed.
 Print Assumptions C16_render_refines.
+
+(* ---- exit inside an if-ok block ---- *)
+From Coq Require Import String.
+From DT Require Import Proofs.RefineFindings.
+Theorem C16_exit_inside_ifok :
+  forall flits lookup budget inc k (ci : condinfo) ki1 ki2 r1 r2 rest c w,
+    cHlp ci = Interp.n_vok -> oIns k = n_static ->
+    exists c',
+      write_node flits lookup budget inc
+        (NCondOK k ci (NBlock BTrue ki1 (NExit :: r1) :: NBlock BFalse ki2 (NExit :: r2) :: rest)) c w =
+      Out c' w (Some EInterrupt).
+Proof. exact exit_inside_ifok. Qed.
+Print Assumptions C16_exit_inside_ifok.
+
+Theorem C16_exit_inside_ifok_example :
+  mout t_exit_in_ifok c_ifok = Some (B "bob"%string, Some EInterrupt) /\ rout t_exit_in_ifok c_ifok = (B "bob"%string, SExit).
+Proof. exact exit_in_ifok_agrees. Qed.
+Print Assumptions C16_exit_inside_ifok_example.
